@@ -525,6 +525,20 @@ func (r *rng) fillValue(v reflect.Value, depth int) {
 		if t.NumMethod() != 0 || r.chance(1, 4) || depth <= 0 && r.chance(1, 2) {
 			return
 		}
+		if depth > 0 && r.chance(1, 12) {
+			// a deep chain of single-member objects / single-element arrays inside the
+			// interface{} region (its scratch buffers grow at depth 5)
+			var x interface{} = gStrPool[r.n(len(gStrPool))]
+			for d := 5 + r.n(5); d > 0; d-- {
+				if r.chance(1, 4) {
+					x = []interface{}{x}
+				} else {
+					x = map[string]interface{}{"k": x}
+				}
+			}
+			v.Set(reflect.ValueOf(x))
+			return
+		}
 		dt := r.dynType(depth - 1)
 		v.Set(r.genGoValue(dt, depth-1))
 	case reflect.Ptr:
